@@ -1,3 +1,5 @@
 import Proofs.Basic
 import Proofs.InvCorrect
 import Proofs.HullMain
+import Proofs.FitGeneral
+import Proofs.RscaleOpt
